@@ -11,13 +11,14 @@ import PV.Drv.C1617
 import PV.Drv.C08
 import PV.Drv.C18
 import PV.Drv.C03
+import PV.Drv.C11
 namespace PV.Drv
 
 def echoF : Handler := fun args => fmtFs (args.map parseF)
 def echoS : Handler := fun args => " ".intercalate (args.map (fmtS ∘ parseS))
 
 def table : List (String × Handler) :=
-  [("echoF", echoF), ("echoS", echoS)] ++ C09.handlers ++ Sgp4.handlers ++ Numeric.handlers ++ C10.handlers ++ C02.handlers ++ C15.handlers ++ C19.handlers ++ C1617.handlers ++ C08.handlers ++ C18.handlers ++ C03.handlers
+  [("echoF", echoF), ("echoS", echoS)] ++ C09.handlers ++ Sgp4.handlers ++ Numeric.handlers ++ C10.handlers ++ C02.handlers ++ C15.handlers ++ C19.handlers ++ C1617.handlers ++ C08.handlers ++ C18.handlers ++ C03.handlers ++ C11.handlers
 
 def lookup (op : String) : Option Handler := (table.find? (·.1 == op)).map (·.2)
 
